@@ -111,6 +111,40 @@ def connrun(pid, tier, seed, replay):
             v.add_tlc(cfg + "(simulate, critical-section level)", gres)
             rows += sc
         v.cov["tlc_generated_scenarios"] = len(rows)
+    # the transport satellites are independent of the scripted-transport part: they run side by side with it (own TLC runs,
+    # own go test process, own artefact files) and are joined below; an exception in one of them is re-raised there
+    bg = {}
+    if not replay:
+        import threading
+        def _spawn(name, fn):
+            box = {}
+            def run():
+                try:
+                    box["res"] = fn()
+                except BaseException as e:      # noqa: re-raised at the join
+                    box["exc"] = e
+            th = threading.Thread(target=run, name=name, daemon=True)
+            th.start()
+            bg[name] = (th, box)
+        if pid in ("C02", "C03", "C04"):
+            from checks import c08
+            _spawn("streamsrv", lambda: c08.satellite(v, pid, tier, seed))
+        if pid == "C05":
+            import httpclose
+            _spawn("httpclose", lambda: httpclose.satellite(v, pid, tier, seed))
+        if pid in ("C01", "C02", "C03", "C05"):
+            # the legacy HTTP+SSE transport (SSESat.tla): the exhaustive design runs belong to C01 / C05 in the quick tier
+            import ssesat
+            _spawn("ssesat", lambda: ssesat.satellite(v, pid, tier, seed, design=(tier == "thorough" or pid in ("C01", "C05"))))
+        if pid == "C03":
+            import fanout
+            _spawn("fanout", lambda: fanout.satellite(v, pid, tier, seed))
+    def _join(name):
+        th, box = bg[name]
+        th.join()
+        if "exc" in box:
+            raise box["exc"]
+        return box.get("res")
     nrand = 0 if replay else (300 if tier == "quick" else 3000)
     obs, orows, gout = conncheck.run_scenarios(pid, rows, seed, nrand)
     traces = conncheck.judge(v, pid, obs, orows, {r["id"]: r for r in rows})
@@ -148,12 +182,11 @@ def connrun(pid, tier, seed, replay):
             v.cov["distinct_nontrivial"] += sum(1 for r in wrows if r["c"]["t"] == "batch" or r["c"]["hasId"])
             v.cov["rule"] += "; plus the complete shape table and batch compositions enumerated by TLC (Wire.tla), each run byte-level on a real server"
         if pid in ("C02", "C03", "C04"):
-            from checks import c08
-            c08.satellite(v, pid, tier, seed)
+            _join("streamsrv")
             v.cov["rule"] += "; plus the streamable-HTTP server transport: gated races, a transition-cover sample of the StreamSrv.tla seam graph and seeded random scenarios on a real StreamableHTTPHandler, judged by the %s clauses of StreamSrvMon" % pid
         if pid == "C05":
             import httpclose
-            htr = httpclose.satellite(v, pid, tier, seed)
+            htr = _join("httpclose")
             v.cov["evaluations"] += sum(len(httpclose.steps_of_trace(t)) for (_, _, t) in htr)
             v.cov["distinct_nontrivial"] += len(htr)
             v.cov["rule"] += ("; plus the streamable-HTTP shutdown machinery (HttpClose.tla): transition cover of its seam graphs, -simulate "
@@ -161,12 +194,10 @@ def connrun(pid, tier, seed, replay):
                               "real Server/StreamableHTTPHandler, judged by the C05.Http* clauses of HttpCloseMon")
         if pid in ("C01", "C02", "C03", "C05"):
             # the legacy HTTP+SSE transport (SSESat.tla): the exhaustive design runs belong to C01 / C05 in the quick tier
-            import ssesat
-            ssesat.satellite(v, pid, tier, seed, design=(tier == "thorough" or pid in ("C01", "C05")))
+            _join("ssesat")
             v.cov["rule"] += "; plus the legacy HTTP+SSE transport: transition cover of the SSESat.tla seam graphs, TLC-simulated histories, corner and seeded random scripts on a real SSEHandler + SSEClientTransport pair, judged by the %s.Sse* clauses of SSESatMon" % pid
         if pid == "C03":
-            import fanout
-            fanout.satellite(v, pid, tier, seed)
+            _join("fanout")
             v.cov["rule"] += "; plus the fan-out satellite (Fanout.tla): programs of fan-out notifications (AddRoots/RemoveRoots, ResourceUpdated), per-session notifications (NotifyProgress, Log) and calls executed by one goroutine over 2-3 real sessions, with messages slow to leave and slow notification handlers, judged per session by the C03.Fanout* clauses of FanoutMon"
     for tid, start, trows in traces[:3]:
         v.sample({"trace": tid, "side": trows[0].get("side"), "steps": conncheck.steps_of(trows)})
